@@ -150,3 +150,64 @@ pub fn c14(sc: &Scenario, stats: &mut Stats) -> Vec<Violation> {
     }
     v
 }
+
+/// Soak leg: one long-lived generator, many generate / generate_from_arbitrary / reset calls with
+/// varying inputs. After a warm-up (buffers reach their plateau capacity) the live heap measured
+/// right after `reset()` must stay bounded: growth beyond `slack` bytes is reported.
+pub fn soak(protocol: u8, seed: u64, calls: u64) -> (u64, Option<Violation>) {
+    use rand::{Rng, RngCore, SeedableRng};
+    let mut rng = rand_chacha::ChaCha8Rng::seed_from_u64(crate::desc::derive_seed(seed, "C14.soak", protocol as u64));
+    let cfg = crate::desc::Config::default_for(protocol);
+    verif::set_hash_key(seed);
+    // everything the harness itself keeps alive is allocated before the window opens
+    let mut script = vec![0u8; 512];
+    let base = live();
+    let mut g = build_generator(&cfg, Some(1), None);
+    let warm = calls / 4;
+    let mut plateau: isize = 0;
+    let mut worst: isize = 0;
+    let slack: isize = 512 * 1024;
+    let mut done = 0u64;
+    for i in 0..calls {
+        let r = catch_unwind(AssertUnwindSafe(|| {
+            if rng.random_range(0..2) == 0 {
+                g.seed = Some(rng.random());
+                drop(g.generate());
+            } else {
+                let n = rng.random_range(0..script.len());
+                rng.fill_bytes(&mut script[..n]);
+                drop(g.generate_from_arbitrary(&script[..n]));
+            }
+        }));
+        if r.is_err() {
+            let _ = crate::exec::take_panic();
+            break;
+        }
+        done += 1;
+        if i % 64 == 63 {
+            g.reset();
+            let l = live() - base;
+            if i < warm {
+                plateau = plateau.max(l);
+            } else {
+                worst = worst.max(l);
+            }
+        }
+    }
+    drop(g);
+    let after = live() - base;
+    if worst > plateau + slack {
+        return (
+            done,
+            Some(Violation::new(
+                "C14",
+                "unbounded-growth",
+                format!("protocol {}: live bytes after reset() grew from a plateau of {} (first {} calls) to {} within {} calls on one generator", protocol, plateau, warm, worst, calls),
+            )),
+        );
+    }
+    if after != 0 {
+        return (done, Some(Violation::new("C14", "other-leak", format!("protocol {}: {} bytes live after dropping a generator that served {} calls", protocol, after, done))));
+    }
+    (done, None)
+}
